@@ -271,9 +271,45 @@ def partial_reject_rule(chk, fn, tail_attr: str, rule="C03.partial"):
                 seen = {n.id for t in tests for n in ast.walk(t) if isinstance(n, ast.Name)} | {norm.raw(n) for t in tests for n in ast.walk(t) if isinstance(n, ast.Attribute)}
                 if seen & (local | {f"self.{tail_attr}"}):
                     chk.ok(rule, r, f"the incomplete line is refused because of its own bytes ({', '.join(sorted(seen & local))}): true for every continuation")
-                else:
+                    continue
+                # A refusal on parser state alone.  It is equivalent to what the complete-line path does iff that path refuses every line in
+                # the same state.  Decided by contradiction: the same literal guards a raise over there (the counterpart), and some way round
+                # the loop in the same branch of the parser consumes input (`continue`) without having passed that test.
+                mine = {(l.text, l.pos) for l in PC.units(PC.pc(r, raw=True))}
+                state = {(l.text, l.pos) for t in tests for cl_ in norm.cnf_raw(t, True) if len(cl_) == 1 for l in cl_}
+                loop = next((l_ for l_ in K.loop_ancestors(r)), None)
+                others = [x for x in ast.walk(K._root(fn)) if isinstance(x, ast.Raise) and x is not r and not any(x in ast.walk(b_) for b_ in blk)]
+                counterparts = []
+                for x in others:
+                    ux = {(l.text, l.pos) for l in PC.units(PC.pc(x, raw=True))}
+                    if state and state <= ux:
+                        counterparts.append((x, ux))
+                verdict = None
+                for x, ux in counterparts:
+                    common = (mine & ux) - state
+                    for k in ast.walk(loop) if loop is not None else []:
+                        if not isinstance(k, ast.Continue) or next(iter(K.loop_ancestors(k)), None) is not loop:
+                            continue
+                        uk = {(l.text, l.pos) for l in PC.units(PC.pc(k, raw=True))}
+                        if common <= uk and not any((t_, p_) in uk or (t_, not p_) in uk for t_, p_ in state):
+                            verdict = (x, k)
+                            break
+                    if verdict:
+                        break
+                if verdict:
+                    x, k = verdict
                     chk.violation(rule, r, K.short(r), f"a test of the retained bytes ({', '.join(sorted(local))}) in front of the raise",
-                                  f"{fn.qualname} refuses an incomplete line without looking at it ({' and '.join(norm.raw(t) for t in tests) or 'unconditionally'}): the same bytes are accepted when the line arrives whole and the complete-line path skips or accepts it in that state (a stray CRLF after a message that closes the connection: skipped in one read, `400 Data after Connection: close` when the read ends between CR and LF)")
+                                  f"{fn.qualname} refuses an incomplete line on parser state alone ({' and '.join(norm.raw(t) for t in tests)}), while a complete line in the same state is first looked at: line {k.lineno} goes on to the next line (`continue`) before line {x.lineno} tests the same condition - the same bytes are accepted in one read and refused when the read ends inside the line (a stray CRLF after a message that closes the connection: skipped when it arrives whole, `400 Data after Connection: close` when the read ends between CR and LF)")
+                elif counterparts:
+                    chk.ok(rule, r, f"the incomplete line is refused on parser state ({' and '.join(norm.raw(t) for t in tests)}) under which the complete-line path refuses every line as well (line {counterparts[0][0].lineno} is tested before anything is consumed)")
+                else:
+                    names = {norm.raw(n) for t in tests for n in ast.walk(t) if isinstance(n, ast.Attribute)}
+                    related = [x for x in others if any(nm in norm.raw(i.test) for i in _ancestors(x, K._root(fn)) if isinstance(i, ast.If) for nm in names)]
+                    if related:
+                        chk.ok(rule, r, f"refusal of an incomplete line on parser state ({' and '.join(norm.raw(t) for t in tests)}); the complete-line path tests related state in another form (line {related[0].lineno}): equivalence not decided")
+                    else:
+                        chk.violation(rule, r, K.short(r), f"a test of the retained bytes ({', '.join(sorted(local))}) in front of the raise",
+                                      f"{fn.qualname} refuses an incomplete line on parser state alone ({' and '.join(norm.raw(t) for t in tests) or 'unconditionally'}) that no rejection of a complete line depends on: the same bytes are accepted when the line arrives whole and refused when the read ends inside it")
     if not blocks:
         chk.analysis_error(f"{rule}: the place where {fn.qualname} keeps an incomplete line (self.{tail_attr} = <rest>; break) was not found")
     chk.expect_count(rule, n_r, 1 if tail_attr == "_tail" else 0, f"rejections on incomplete input in {fn.qualname}")
